@@ -77,6 +77,9 @@ Definition bodyUnitInertiaAboutGround (b:body) : SymMat33 T :=
 (** calcSystemMassPropertiesInGround: (mass, com, inertia about OG) *)
 Definition sysInertiaAboutGround (bs:list body) : SymMat33 T :=
   sumS (fun b => sym_scale K (g_m b) (bodyUnitInertiaAboutGround b)) bs.
+(** calcSystemMassPropertiesInGround(s).getInertia() = mass * (I/mass) *)
+Definition sysMassPropsInertia (bs:list body) : SymMat33 T :=
+  let mass := calcSystemMass bs in sym_scale K mass (toUnitInertia mass (sysInertiaAboutGround bs)).
 (** calcSystemCentralInertiaInGround = MassProperties(mass, com, I).calcCentralInertia() *)
 Definition calcSystemCentralInertiaInGround (bs:list body) : SymMat33 T :=
   let mass := calcSystemMass bs in
